@@ -6,12 +6,12 @@
     on leaf and composite functions, in any order).  [ops_ok ops] is the decidable side condition:
       [op_scoped]  ids exist, dictionaries have unique keys, no empty composite, user-level add_point on a
                    point not yet recorded for the function or its terms (how the primitive steps call it);
-      [op_guard]   every composite's merged weights are non-zero (excludes F-C07a) and no query point has an
-                   explicit zero coefficient (excludes F-C07b).
+      [op_guard]   every composite's merged weights are non-zero (excludes F-C07a and F-C07c) and no query
+                   point has an explicit zero coefficient (excludes F-C07b).
     Without [op_guard] the statement is refuted ([C07_inv_refuted_*]). *)
 From Coq Require Import List QArith Reals Qreals Lra Bool Arith.
 From PV Require Import Base.IPS Model.Dict Model.Terms Model.Func Spec.Sem
-  Proofs.DictLemmas Proofs.C07Dict Proofs.C07Inv Proofs.C07Ops Proofs.C07Main Proofs.C07Thm.
+  Proofs.DictLemmas Proofs.C07Dict Proofs.C07Inv Proofs.C07Ops Proofs.C07Main Proofs.C07Thm Proofs.C07InvB.
 Import ListNotations.
 Local Open Scope R_scope.
 
@@ -28,6 +28,11 @@ Proof. exact step_inv. Qed.
 Theorem C07_inv_partial : forall ops, ops_ok ops = true -> inv (run ops).
 Proof. exact inv_partial. Qed.
 
+(** The executable form of the invariant ([inv_b], Proofs/C07InvB.v: meanings compared as pruned
+    differences of dictionaries, the choice of I3 found by enumeration) is sound for [inv]. *)
+Theorem C07_inv_b_sound : forall s, inv_b s = true -> inv s.
+Proof. exact inv_b_sound. Qed.
+
 (** Unguarded statement refuted: well-scoped op sequences that break the invariant. *)
 Theorem C07_inv_refuted_zero_weight :      (* F-C07a, live term not differentiable: a LEAF gets two values at x *)
   exists ops, ops_scoped ops = true /\ ~ inv (run ops).
@@ -40,6 +45,27 @@ Proof. exact (ex_intro _ ops_zero_weight_diff refuted_zero_weight_diff). Qed.
 Theorem C07_inv_refuted_zero_query :       (* F-C07b: 0*y queried twice: two values at the point {} *)
   exists ops, ops_scoped ops = true /\ ~ inv (run ops).
 Proof. exact (ex_intro _ ops_zero_query refuted_zero_query). Qed.
+
+Theorem C07_inv_refuted_all_weights_cancel : (* F-C07c: stationary point of f - f records a free value for the zero function *)
+  exists ops, ops_scoped ops = true /\ ~ inv (run ops).
+Proof. exact (ex_intro _ ops_all_cancel refuted_all_cancel). Qed.
+
+(** What a call returns is a sample recorded for the function at a point equal to the query (so I1/I2/I3
+    speak about every returned object): "one value however often and through whichever route it is queried". *)
+Theorem C07_oracle_returns_recorded :
+  forall s f p, (f < nfun s)%nat -> wfq s p ->
+    let s' := fst (oracle s f p) in
+    let g := fst (snd (oracle s f p)) in
+    let v := snd (snd (oracle s f p)) in
+    exists x0, In (x0, g, v) (f_pts (getf s' f)) /\ dict_eqb Nat.eqb x0 p = true.
+Proof. exact oracle_returns_recorded. Qed.
+
+Theorem C07_value_returns_recorded :
+  forall s f p, (f < nfun s)%nat -> wfq s p ->
+    let s' := fst (value s f p) in
+    let v := snd (value s f p) in
+    exists x0 g, In (x0, g, v) (f_pts (getf s' f)) /\ dict_eqb Nat.eqb x0 p = true.
+Proof. exact value_returns_recorded. Qed.
 
 (** The clauses of the property, for the state after any accepted op sequence. *)
 
@@ -140,7 +166,7 @@ Definition ops_example : list op :=
    Combine [(2%nat, (1 # 2)%Q); (0%nat, (-1)%Q)]; Value 3%nat x0; Oracle 3%nat [(0%nat, 2%Q); (1%nat, (-1)%Q)]].
 
 Example C07_example :
-  ops_ok ops_example = true /\
+  ops_ok ops_example = true /\ inv_b (run ops_example) = true /\
   let s := run ops_example in
   length (f_pts (getf s 2%nat)) = 3%nat /\ length (f_stat (getf s 2%nat)) = 1%nat /\
   length (f_pts (getf s 1%nat)) = 6%nat /\
@@ -149,15 +175,22 @@ Proof. vm_compute. repeat split; reflexivity. Qed.
 
 (** the refuting sequences are well scoped but rejected by the guard *)
 Example C07_refuting_sequences_rejected_by_guard :
-  ops_ok ops_zero_weight = false /\ ops_ok ops_zero_weight_diff = false /\ ops_ok ops_zero_query = false.
+  ops_ok ops_zero_weight = false /\ ops_ok ops_zero_weight_diff = false /\ ops_ok ops_zero_query = false /\
+  ops_ok ops_all_cancel = false /\ inv_b (run ops_all_cancel) = false /\
+  inv_b (run ops_zero_weight) = false /\ inv_b (run ops_zero_weight_diff) = false /\
+  inv_b (run ops_zero_query) = false.
 Proof. vm_compute. repeat split; reflexivity. Qed.
 
 Print Assumptions C07_inv_init.
 Print Assumptions C07_inv_step.
 Print Assumptions C07_inv_partial.
+Print Assumptions C07_inv_b_sound.
 Print Assumptions C07_inv_refuted_zero_weight.
 Print Assumptions C07_inv_refuted_zero_weight_diff.
 Print Assumptions C07_inv_refuted_zero_query.
+Print Assumptions C07_inv_refuted_all_weights_cancel.
+Print Assumptions C07_oracle_returns_recorded.
+Print Assumptions C07_value_returns_recorded.
 Print Assumptions C07_flat.
 Print Assumptions C07_one_value_per_point.
 Print Assumptions C07_one_gradient_if_differentiable.
